@@ -13,6 +13,10 @@ quiescence and records the frames written, `connection_state.current`, the event
 
 Finding classes (stable):  c05-select-rsp-unchecked (F-4), c05-separate-ignored (F-5); anything else: c05-state, c05-response,
 c05-gate, c05-deliver, c05-accept-race, c05-stall.
+
+  queued dispatch  : a data block that waited in the dispatch queue (busy `message_received` handler) is dispatched after the peer has
+                     closed — "never delivered while not SELECTED" also holds in NOT CONNECTED (`datq` as last input of a history, and the
+                     faithful two-frames/peer-close/release scenario `run_slow_handler`).
 """
 from __future__ import annotations
 
@@ -327,6 +331,21 @@ class Endpoint:
                 for kind, *rest in self.obs[self.mark:]:
                     if kind == "dl" and rest[0] == "wait" and rest[1] in queued_before:
                         self.wait_owner_gone(rest[1])
+        elif k == "datq":
+            # a block that was received earlier and is still in the dispatch queue (behind a busy handler) is dispatched now:
+            # what `_process_received_data` does after decoding a frame, without the connection
+            s, f, w, system = int(parts[1]), int(parts[2]), parts[3] == "1", int(parts[4])
+            body = bytes.fromhex(parts[6]) if len(parts) > 6 and parts[6] != "-" else b""
+            block = secsgem.hsms.HsmsBlock.decode(frame(0, system, s | (0x80 if w else 0), f, body, session=0))
+            queued_before = [x for x in self.open_systems()]
+            self.fed += 1
+            want = self.fed
+            p._thread.queue_block(p, block)
+            # without a connection the dispatcher blocks in `send_message` (no receiver thread): the Reject.req sits in the send queue
+            self.wait_for(lambda: self.dispatched >= want or (not c.connected and p._send_queue.qsize() > 0))
+            for kind, *rest in self.obs[self.mark:]:
+                if kind == "dl" and rest[0] == "wait" and rest[1] in queued_before:
+                    self.wait_owner_gone(rest[1])
         elif k == "api":
             if c.connected:
                 fn = {"sel": p.send_select_req, "des": p.send_deselect_req, "lnk": p.send_linktest_req}[parts[1]]
@@ -349,7 +368,10 @@ class Endpoint:
         got = self.obs[self.mark:]
         raw = b"".join(x[1] for x in got if x[0] == "tx")
         frames = parse_frames(raw)
-        rec = {"op": op, "pre": pre, "post": self.conn(), "frames": frames,
+        blocked = []
+        if not self.c.connected:
+            blocked = parse_frames(b"".join(bytes(b.data) for b in list(self.p._send_queue.queue)))
+        rec = {"op": op, "pre": pre, "post": self.conn(), "frames": frames, "blocked": blocked,
                "ev": [x[1] for x in got if x[0] == "ev"],
                "dl": [(x[1], x[2]) for x in got if x[0] == "dl"],
                "err": [x[1] for x in got if x[0] == "err"], "stall": self.stalled}
@@ -359,6 +381,8 @@ class Endpoint:
         """after the observations: let every lingering thread of this endpoint end (bounded, best effort)"""
         p = self.p
         try:
+            while not p._send_queue.empty():
+                p._send_queue.get_nowait().resolve(False)  # a sender blocked on a dead connection
             for system in list(p._response_queues.keys()):
                 q = p._response_queues.get(system)
                 if q is not None:
@@ -386,8 +410,10 @@ def show_step(rec) -> str:
         return ";".join(xs) if xs else "-"
     if rec["stall"]:
         return "STALL"
+    blk = rec.get("blocked") or []
     return (f"{rec['post']} tx={j([f'{f['stype']}/{f['sys']}/{f['b2']}/{f['b3']}' for f in rec['frames']])} ev={j(rec['ev'])} "
-            f"dl={j([f'{a}/{b}' for a, b in rec['dl']])} err={j(rec['err'])}")
+            f"dl={j([f'{a}/{b}' for a, b in rec['dl']])} err={j(rec['err'])}"
+            + (f" blk={j([f'{f['stype']}/{f['sys']}/{f['b2']}/{f['b3']}' for f in blk])}" if blk else ""))
 
 
 # ------------------------------------------------------------------------------------------- histories
@@ -408,9 +434,9 @@ def concretise(aop: str, ep: Endpoint, kinds: dict) -> str:
         return int(tok)
     if parts[0] == "rx":
         return f"rx.{parts[1]}.{resolve(parts[2])}.{parts[3]}"
-    if parts[0] == "dat":
+    if parts[0] in ("dat", "datq"):
         s, f, w, body = DATA[parts[1]]
-        return f"dat.{s}.{f}.{1 if w else 0}.{resolve(parts[2])}.X.{body.hex() or '-'}"
+        return f"{parts[0]}.{s}.{f}.{1 if w else 0}.{resolve(parts[2])}.X.{body.hex() or '-'}"
     if parts[0] == "t6":
         return f"t6.{resolve(parts[1])}"
     return aop
@@ -431,7 +457,7 @@ def run_history(active: bool, aops: list[str]):
     recs, cops = [], []
     for aop in aops:
         cop = concretise(aop, ep, kinds)
-        if cop.startswith("dat."):
+        if cop.startswith(("dat.", "datq.")):
             pp = cop.split(".")
             d = decodable(ep, int(pp[1]), int(pp[2]), pp[3] == "1", int(pp[4]), bytes.fromhex(pp[6]) if pp[6] != "-" else b"")
             cop = ".".join(pp[:5] + ["1" if d else "0"] + pp[6:])
@@ -456,7 +482,7 @@ def run_history(active: bool, aops: list[str]):
 
 def driver_op(cop: str) -> str:
     pp = cop.split(".")
-    return ".".join(pp[:6]) if pp[0] == "dat" else cop
+    return ".".join(pp[:6]) if pp[0] in ("dat", "datq") else cop
 
 
 def impl_answer(recs, final) -> str:
@@ -530,7 +556,12 @@ def oracle(rec):
         if not (ok_rsp or ok_rej):
             out.append(("c05-response", f"{pp[1]} sys={system} in {pre}{' (closing)' if closing else ''} answered by "
                         f"{[(f['stype'], f['sys']) for f in frames]}, expected exactly one {'response or Reject' if closing else 'response'} with its system bytes"))
-    if pp[0] == "dat" and pre != "NC":
+    if pp[0] == "datq" and pre == "NC":
+        # dispatched after the connection it came on was closed: "a data message received while not SELECTED is never delivered";
+        # no connection, so no Reject.req is demanded (what becomes of the queued one is C06/C09's subject)
+        if rec["dl"]:
+            out.append(("c05-gate", f"data message sys={int(pp[4])} dispatched while NOT CONNECTED was delivered: {rec['dl']}"))
+    if pp[0] in ("dat", "datq") and pre != "NC":
         system = int(pp[4])
         dl = rec["dl"]
         if pre != "SEL":
@@ -586,6 +617,45 @@ def run_race(policy: str):
     return ans, rsp, conn, stalled
 
 
+# ------------------------------------------------------------------------------------------- queued behind a busy handler
+def run_slow_handler(active: bool):
+    """The peer sends two data messages and closes at once; the application's `message_received` handler is still busy with the first
+    (it blocks until the close sequence has finished), so the second is dispatched — by the dispatcher thread, which a close does not
+    stop — when the session is already NOT CONNECTED.  Real path throughout: frames fed to the connection, receiver thread, dispatch
+    queue.  -> (model line, implementation's last step as the driver prints it, delivered systems after the release, state at release)"""
+    ep = Endpoint(active)
+    gate = threading.Event()
+
+    def busy(data):
+        if data["message"].header.system == 101:
+            gate.wait(WAIT)
+    ep.p.events.message_received += busy
+    ep.step("con")
+    ep.step("rx.selreq.4242.0")
+    ep.mark = len(ep.obs)
+    ep.fed += 1
+    ep.c.feed(frame(0, 101, 0x81, 1, session=0))                      # S1F1 W: delivered, the handler blocks
+    ep.wait_for(lambda: ("dl", "app", 101) in ep.obs)
+    ep.fed += 1
+    ep.c.feed(frame(0, 102, 0x81, 1, session=0))                      # S1F1 W: waits in the dispatch queue
+    ep.wait_for(lambda: ep.p._thread._dispatch_queue.qsize() >= 1)
+    ep.c.peer_close()
+    at_release = ep.conn()
+    ep.mark = len(ep.obs)
+    pre = ep.conn()
+    gate.set()
+    want = ep.fed
+    ep.wait_for(lambda: ep.dispatched >= want or (not ep.c.connected and ep.p._send_queue.qsize() > 0))
+    got = ep.obs[ep.mark:]
+    rec = {"op": "datq.1.1.1.102.1", "pre": pre, "post": ep.conn(), "frames": parse_frames(b"".join(x[1] for x in got if x[0] == "tx")),
+           "blocked": parse_frames(b"".join(bytes(b.data) for b in list(ep.p._send_queue.queue))) if not ep.c.connected else [],
+           "ev": [x[1] for x in got if x[0] == "ev"], "dl": [(x[1], x[2]) for x in got if x[0] == "dl"],
+           "err": [x[1] for x in got if x[0] == "err"], "stall": ep.stalled, "open_before": {}, "closing": False}
+    line = f"hsmsfsm run {'a' if active else 'p'} {CTR0} DD con,rx.selreq.4242.0,dat.1.1.1.101.1,pcl,datq.1.1.1.102.1"
+    ep.cleanup()
+    return line, rec, at_release
+
+
 # ------------------------------------------------------------------------------------------- generators
 CORE = ["con", "pcl", "dib", "die", "rx.selreq.U.0", "rx.desreq.U.0", "rx.lnkreq.U.0", "rx.selrsp.U.0", "rx.desrsp.U.0",
         "rx.sepreq.U.0", "rx.rejreq.U.0", "dat.cw.U", "dat.cn.U"]
@@ -594,6 +664,29 @@ FULL = CORE + ["rx.selrsp.Ms.0", "rx.selrsp.Ms.1", "rx.selrsp.Ml.0", "rx.desrsp.
                "api.sel", "api.des", "api.lnk", "t6.Ma"]
 PREFIXES = [["con"], ["con", "rx.selreq.U.0"], ["con", "dib"], ["con", "rx.selreq.U.0", "dib"], ["con", "rx.selreq.U.0", "api.des"],
             ["con", "api.lnk"]]
+
+
+QUEUED = ["datq.cw.U", "datq.un.U", "datq.mw.U", "datq.cn.Ma"]
+# state-establishing prefixes for the queued dispatch, including the closed connection (the dispatcher thread survives a close)
+QPREFIXES = PREFIXES + [["con", "pcl"], ["con", "rx.selreq.U.0", "pcl"], ["con", "rx.selreq.U.0", "dib", "die"],
+                        ["con", "rx.selreq.U.0", "pcl", "con"], ["con", "rx.selreq.U.0", "pcl", "con", "pcl"],
+                        ["con", "rx.selreq.U.0", "api.lnk", "pcl"]]
+
+
+def gen_queued(rng: hlib.Rng, n_random: int, big: bool = False):
+    """a block dispatched from the queue is always the LAST input: while NOT CONNECTED it leaves the dispatcher blocked in `send_message`,
+    and neither the model nor this harness follows the send queue across a reconnect (C06/C09)"""
+    out = []
+    for active in (False, True):
+        for pre in QPREFIXES:
+            for mid in [[]] + [[x] for x in (FULL if big else CORE)]:
+                for q in QUEUED:
+                    out.append((active, pre + mid + [q]))
+    for active, h in gen_random(rng, n_random):
+        if "con" not in h:
+            h = ["con"] + h
+        out.append((active, h + [rng.choice(QUEUED)]))
+    return out
 
 
 def gen_random(rng: hlib.Rng, n: int):
@@ -710,17 +803,23 @@ def main():
             for combo in itertools.product(CORE, repeat=depth_core):  # shorter histories are prefixes of these
                 histories.append((active, list(combo)))
             for pre in PREFIXES:
-                for combo in itertools.product(FULL, repeat=3 if pre in deep_prefixes else 2):
+                # quick: depth 2 after the four session states (open, selected, each also closing), depth 1 after the two api prefixes
+                depth = 3 if pre in deep_prefixes else (2 if (thorough or pre in PREFIXES[:4]) else 1)
+                for combo in itertools.product(FULL, repeat=depth):
                     histories.append((active, pre + list(combo)))
         res.exhaustive_parts.append(f"all {len(CORE)}^{depth_core} histories over the core alphabet from the initial state, active and passive")
-        res.exhaustive_parts.append(f"all {len(FULL)}^2 continuations over the full alphabet after each of {len(PREFIXES)} prefixes"
+        res.exhaustive_parts.append(f"all {len(FULL)}^2 continuations over the full alphabet after each of {len(PREFIXES) if thorough else 4} prefixes"
                                     + (f" ({len(FULL)}^3 after {deep_prefixes})" if deep_prefixes else "") + ", active and passive")
         histories += gen_random(rng, 3000 if big else 500)
+        histories += gen_queued(rng.fork("queued"), 1500 if big else 250, big)
+        res.exhaustive_parts.append(f"dispatch of a queued data block ({len(QUEUED)} flavours) as last input after each of {len(QPREFIXES)} prefixes "
+                                    f"(incl. closed connections) x (nothing | one letter of the {'full' if big else 'core'} alphabet), active and passive")
         # corpus: the witnesses of the recorded findings, fixed and open
         histories += [(False, ["con", "rx.selrsp.U.0"]), (True, ["con", "rx.selrsp.Ms.1"]), (False, ["con", "rx.selreq.U.0", "rx.desrsp.U.0"]),
                       (False, ["con", "rx.selreq.U.0", "rx.sepreq.U.0"]), (False, ["con", "dat.uw.U"]), (False, ["con", "dat.mw.U"]),
                       (False, ["con", "rx.selreq.U.0", "dat.uw.U"]), (False, ["con", "rx.selreq.U.0", "rx.selreq.U.0"]),
                       (True, ["con", "rx.selreq.U.0", "rx.selrsp.Ms.0", "rx.desreq.U.0", "rx.selrsp.Ms.0"]),
+                      (False, ["con", "rx.selreq.U.0", "dat.cw.U", "pcl", "datq.cw.U"]),
                       (True, ["con", "rx.selreq.U.0", "dat.cw.Ma", "dat.cn.Ma"]), (False, ["con", "rx.selreq.U.0", "api.lnk", "dat.mw.Ma", "dat.mn.Ma"])]
 
     t0 = time.time()
@@ -785,6 +884,23 @@ def main():
                 rcases.append({"kind": "race", "policy": pol})
                 ranswers.append(ans)
     hlib.compare_batch(res, drv, "_on_connected vs dispatcher (accept race) vs Model.Hsms.Race", rcases, rlines, ranswers)
+
+    # ---- a data message queued behind a busy handler, dispatched after the peer closed
+    for active in (False, True):
+        for rep in range(2 if not big else 6):
+            line, rec, at_release = run_slow_handler(active)
+            line = line.replace("DD", defects)
+            res.count(("slow-handler", active, rep), sample={"slow handler": "two data frames, peer close, release", "last step": show_step(rec)} if rep == 0 else None)
+            res.bump("slow_handler", f"{'active' if active else 'passive'}: released in {at_release}: {show_step(rec)}")
+            case = {"kind": "slow-handler", "active": active}
+            for cls, what in oracle(rec):
+                res.violate(cls, "busy handler, second data frame, peer close, release: " + what, case, expected="not delivered", actual=show_step(rec))
+            if rep == 0 and drv.available:
+                res.driver_used = True
+                m = hlib.strip_branch(drv.run([line])[0]).split(" | ")[-1]
+                res.traces_validated += 1
+                if m != show_step(rec):
+                    res.disagree("block dispatched after the close (busy handler) vs Model.Hsms.step rxDataQueued", {"case": case, "line": line}, m, show_step(rec))
 
     res.dump(a.out)
     sys.stdout.flush()
